@@ -186,7 +186,9 @@ def collapse_swa(ctx, content_type, ns_soap_env):
         else:
             payload = part.get_payload()
 
-        cid = part.get("Content-ID").strip("<>")
+        cid = part.get("Content-ID")
+        if cid is not None:
+            cid = cid.strip("<>")
         cloc = part.get("Content-Location")
         numreplaces = None
 
